@@ -58,3 +58,21 @@ def unwindset_from_loops(d, gb, rules, checks_flags=("--drop-unused-functions",)
                 us.append("%s:%d" % (name, bound))
                 break
     return ",".join(us), unnamed
+
+
+def mirrored_string_piece():
+    """L22: string_piece.h with the two in-class `friend bool operator==/!=` DEFINITIONS turned into free inline functions after the
+    class.  CBMC's C++ front end silently ignores friend functions defined inside a class body and falls back to a built-in
+    comparison of the struct (measured: StringPiece("x") == StringPiece("x") at different addresses is false).  Same functions,
+    same bodies, found by the same lookup."""
+    import re
+    from . import slicer
+    h = slicer.read_src("src/string_piece.h")
+    rx = re.compile(r'  friend bool operator(==|!=)\(\s*const StringPiece& lhs, const StringPiece& rhs\) \{(.*?)\n  \}\n', re.S)
+    bodies = rx.findall(h)
+    if len(bodies) != 2:
+        raise slicer.SliceError("L22 expected two friend operator definitions in string_piece.h, found %d" % len(bodies))
+    h = rx.sub("", h)
+    free = "".join("inline bool operator%s(const StringPiece& lhs, const StringPiece& rhs) {%s\n}\n" % (op, body) for op, body in bodies)
+    k = h.rindex("#endif")
+    return h[:k] + free + "\n" + h[k:]
